@@ -172,6 +172,15 @@ def shuffle_rec(rng, t, ctr):
 
 
 def gen_m_case(rng):
+    if rng.random() < 0.06:
+        # one input has the SAME name twice at a level (what a repair marker colliding with a sibling leaves behind):
+        # outside the premise of the theorems; the literal loop model must still reproduce the implementation
+        mode, ts, _ = gen_m_case(rng)
+        cand = [t for t in ts if t]
+        if cand:
+            t = rng.choice(cand); i = rng.randrange(len(t)); n = t[i]
+            t.insert(i + 1, (n[0], rng.choice([0, 2]), rng.choice([4, 5, 6]), 900 + rng.randint(0, 50), (), []))
+        return mode, ts, False
     if rng.random() < 0.12:
         # inputs NOT sorted in the compared order (what backup-written trees were for the unfixed merge):
         # only the literal loop model is compared with the implementation here
@@ -340,10 +349,21 @@ def run(ctx):
     for i, s in enumerate(seeds(nR)):
         # bit 8: a file whose marked name sorts after its siblings (`k` -> `k.repaired` > `k+`, `k-1`) loses its data
         elines.append("R %d %d" % (s, (i % 8) if i % 4 else (8 | (i % 8 & 2))))
+    # S: copy from a source that lost a data pack; F: the k-th pack upload of copy/merge/rewrite/repair fails
+    nS, nFk = ((40, 8) if th else (4, 3))
+    if not r["ok"]:
+        nS, nFk = nS * 2, 8          # an obligation is broken: sweep every pack write of every command
+    for s_ in seeds(nS):
+        elines.append("S %d" % s_)
+    fseeds = seeds(3 if (th or not r["ok"]) else 1)
+    for s_ in fseeds:
+        for op_ in range(4):
+            for k_ in range(nFk):
+                elines.append("F %d %d %d" % (s_, op_, k_))
     if ctx.replay:
         rp = json.load(open(ctx.replay))
         c = rp["witness"].get("case", "")
-        elines = [c] if c and c[0] in "CGWR" else []
+        elines = [c] if c and c[0] in "CGWRSF" else []
     eout = []
     per = 20
     for i in range(0, len(elines), per):
@@ -394,16 +414,16 @@ def run(ctx):
     cp_jobs = []          # (case, run, model line, set of (type, id) the run added to the destination index)
     def tie_copy(ln, segs, jobs):
         key = lambda h: bytes.fromhex(h) if h != "-" else b""
-        T, I, Q, B, D = [], {}, {}, {}, {}
+        T, I, Q, B, D, S = [], {}, {}, {}, {}, {}
         for sg in segs:
             tk = sg.split()
             if tk[0] == "T": T.append(map_names(parse_tree(tk[1:], 0)[0], key))
             elif tk[0] == "I":
                 n = int(tk[3]); I[int(tk[1])] = (int(tk[2]), {tk[4 + 2 * j]: int(tk[5 + 2 * j]) for j in range(n)})
             elif tk[0] == "Q": Q[int(tk[1])] = [int(x) for x in tk[3:3 + int(tk[2])]]
-            elif tk[0] in "BD":
+            elif tk[0] in "BDS":
                 n = int(tk[2]); st_ = set((int(tk[3 + 2 * j]), int(tk[4 + 2 * j])) for j in range(n))
-                (B if tk[0] == "B" else D)[int(tk[1])] = st_
+                {"B": B, "D": D, "S": S}[tk[0]][int(tk[1])] = st_
         ns = set()
         for t in T: all_names(t, ns)
         order = sorted(ns); rk = {n: i for i, n in enumerate(order)}
@@ -420,16 +440,17 @@ def run(ctx):
         for i, t in enumerate(T):
             walk(t, I[i][0], [], I[i][1])
         tabs = " ".join("%d %s" % (i_, fmt_tree(t_, rkf)) for i_, t_ in table)
-        srcs = " ".join("%d %d" % x for x in sorted(src))
         for k in sorted(Q):
+            srck = S.get(k, src)          # S: what the (damaged) source index really knows; else the source is closed
+            srcs = " ".join("%d %d" % x for x in sorted(srck))
             snaps_ = " ".join(fmt_tree(T[i], rkf) for i in Q[k])
             dsts = " ".join("%d %d" % x for x in sorted(B[k]))
-            jobs.append((ln, k, "%d %s %d %s %d %s %d %s" % (len(table), tabs, len(Q[k]), snaps_, len(src), srcs, len(B[k]), dsts), D[k]))
+            jobs.append((ln, k, "%d %s %d %s %d %s %d %s" % (len(table), tabs, len(Q[k]), snaps_, len(srck), srcs, len(B[k]), dsts), D[k]))
     for ln, out in zip(elines, eout):
         m = ln[0]
         hist["e2e_" + m] = hist.get("e2e_" + m, 0) + 1
         if out.startswith("err") or out.startswith("panic"):
-            viol.append(({"C": "copy", "G": "merge_snapshots", "W": "rewrite", "R": "repair"}[m] + " run fails (error or panic)", ln, out[:600], None)); continue
+            viol.append(({"C": "copy", "G": "merge_snapshots", "W": "rewrite", "R": "repair", "S": "copy from a damaged source", "F": "fault-injection"}[m] + " run fails (error or panic)", ln, out[:600], None)); continue
         if m == "G":
             segs = [x.strip() for x in out.split("|")]
             d = kv(segs[0]); ts = []; res = None
@@ -462,18 +483,24 @@ def run(ctx):
             out = segs[0]
             if m in "WR" and len(segs) > 1:
                 tie_modifier(m, ln, segs[1:], wr_jobs)
-            if m == "C" and len(segs) > 1:
+            if m in "CS" and len(segs) > 1:
                 tie_copy(ln, segs[1:], cp_jobs)
             d = kv(out)
-            for k_ in ("coll", "coll_tree", "prepop", "excluded", "marked", "repaired", "tree_pack", "unsorted", "present_before", "needed", "needed_ok", "damaged", "lost_tree_pack", "lost_blobs", "shared_dirs", "root_ignored", "lookup_ok", "merge_self_ok"):
+            for k_ in ("coll", "coll_tree", "prepop", "excluded", "marked", "repaired", "tree_pack", "unsorted", "present_before", "needed", "needed_ok", "damaged", "lost_tree_pack", "lost_blobs", "shared_dirs", "root_ignored", "lookup_ok", "merge_self_ok", "lost", "intact_files"):
                 if k_ in d and d[k_].isdigit():
                     hist["%s_%s" % (m, k_)] = hist.get("%s_%s" % (m, k_), 0) + int(d[k_])
             if m == "C" and int(d.get("present_before", 0)) + int(d.get("coll", 0)) + int(d.get("coll_tree", 0)) + int(d.get("damaged", 0)) > 0: nontriv.add(ln)
             if m == "W" and int(d.get("shared_dirs", 0)) > 1 and "src/s" in d.get("globs", ""): hist["W_anchored_exclude_below_shared_tree"] = hist.get("W_anchored_exclude_below_shared_tree", 0) + 1
             if m == "W" and int(d.get("excluded", 0)) > 0: nontriv.add(ln)
             if m == "R" and int(d.get("damaged", 0)) > 0: nontriv.add(ln)
+            if m == "S" and int(d.get("lost", 0)) > 0: nontriv.add(ln)
+            if m == "F":
+                if d.get("fault_hit") == "1": nontriv.add(ln)
+                hist["F_op%s_%s%s" % (d.get("op"), "fault_" if d.get("fault_hit") == "1" else "nofault_", d.get("returned"))] = hist.get("F_op%s_%s%s" % (d.get("op"), "fault_" if d.get("fault_hit") == "1" else "nofault_", d.get("returned")), 0) + 1
             if not out.startswith("ok"):
-                what = {"C": "copied snapshot does not restore identically from the destination",
+                what = {"S": "copy from a source with missing data blobs: fails, adds other blobs than `needed`, or a file whose chunks the source has does not dump identically",
+                        "F": "a pack upload failed, the command reported success, and a snapshot it wrote is incomplete (check / ls / dump fails)",
+                        "C": "copied snapshot does not restore identically from the destination",
                         "W": "rewrite does not remove exactly the excluded paths",
                         "R": "repair_snapshots: intact repository changed, or a file kept without the marker lost its content"}[m]
                 if m == "R" and d.get("merge_self_ok") == "0":
@@ -481,7 +508,7 @@ def run(ctx):
                 elif m == "R" and d.get("lookup_ok") == "0":
                     what = "repair_snapshots: an entry of a repaired snapshot is not found by path"
                 viol.append((what, ln, out[:600], None))
-            if len(samples) < 6 and m in "CWR" and not any(s.get("case", "")[0] == m for s in samples):
+            if len(samples) < 8 and m in "CWRSF" and not any(s.get("case", "")[0] == m for s in samples):
                 samples.append({"case": ln, "impl": out[:400]})
     if glines and model:
         mo = run_lines(model, [g[5] for g in glines])
